@@ -83,10 +83,11 @@ def func_mapper(a, b, c):
         if RL[dt].dump(obj) != [a, b, c]: return False
     return True
 ''')
-    mx.ob("omit_factory_defaults", "a: int, i1: int, i2: int, i3: int, i4: int, i5: int", "return omit_factory(a, i1, i2, i3, i4, i5)",
-          pre=["0 <= i1 < 11 and 0 <= i2 < 11 and 0 <= i3 < 11", "0 <= i4 < 11 and 0 <= i5 < 11", "i4 == 2 or i5 == 0"], timeout=tmo * 2,
-          family="omit_default with default factories / falsy look-alikes, two fields flattened into one nested node",
-          bounds="5 defaulted fields (dict/list/str factories, 0, None) x 11 look-alike values (None, 0, '', [], {}, False, 5, [1], {'k': 1}, 'x', ()); slice: one of the last two fields at its default")
+    for sl, pre in (("nested", "i3 == 3 and i4 == 2 and i5 == 0"), ("flat", "i1 == 4 and i2 == 1 and i5 == 0"), ("none", "i1 == 4 and i3 == 3 and i4 == 2")):
+        mx.ob(f"omit_factory_defaults_{sl}", "a: int, i1: int, i2: int, i3: int, i4: int, i5: int", "return omit_factory(a, i1, i2, i3, i4, i5)",
+              pre=["0 <= i1 < 11 and 0 <= i2 < 11 and 0 <= i3 < 11", "0 <= i4 < 11 and 0 <= i5 < 11", pre], timeout=tmo,
+              family="omit_default with default factories / falsy look-alikes, two fields flattened into one nested node",
+              bounds="5 defaulted fields (dict/list/str factories, 0, None) x 11 look-alike values (None, 0, '', [], {}, False, 5, [1], {'k': 1}, 'x', ()); slice " + sl + ": two fields vary, the others at their default")
     mx.ob("func_mapper_ellipsis", "a: int, b: int, c: int", "return func_mapper(a, b, c)", timeout=tmo,
           family="function mappers returning paths with Ellipsis (after trim / name_style / as_list)", bounds="symbolic ints; loader and dumper; 3 debug modes")
     mods.append(mx)
